@@ -445,6 +445,23 @@ pub fn family(name: &str, thorough: bool, seed: usize) -> Family {
             }
             Family { name: name.into(), lists, hays: gen::strings(b"abc", 0, if thorough { 5 } else { 4 }) }
         }
+        // many patterns (21..64, beyond small-sort thresholds) with duplicated strings; lengths
+        // 2..3 over 8 letters; activates the packed prefilter in default configurations
+        "many" => {
+            let mut rng = gen::Rng(0x3A27 + seed as u64);
+            let alpha = b"abcdefgh";
+            let mut lists = vec![];
+            for _ in 0..(if thorough { 400 } else { 60 }) {
+                let n = 21 + rng.below(44);
+                let mut l: Vec<Vec<u8>> = (0..n).map(|_| { let k = 2 + rng.below(2); rng.bytes(alpha, k) }).collect();
+                for _ in 0..(2 + rng.below(4)) {
+                    let (i, j) = (rng.below(n), rng.below(n));
+                    l[j] = l[i].clone();
+                }
+                lists.push(l);
+            }
+            Family { name: name.into(), lists, hays: gen::strings(b"ab", 0, 3) }
+        }
         // byte-value boundaries: 0x00, 0x7F/0x80, 0xFE/0xFF (byte classes, last class, non-ASCII)
         "bytes" => {
             let alpha: &[u8] = &[0x00, b'a', 0x7F, 0x80, 0xFE, 0xFF];
@@ -569,7 +586,7 @@ pub fn run(args: &Args) -> Report {
                             }
                         }
                     }
-                    let derived = if fname == "deep" || fname == "wide" || fname == "bytes" { derived_hays(pats) } else { vec![] };
+                    let derived = if fname == "deep" || fname == "wide" || fname == "bytes" || fname == "many" { derived_hays(pats) } else { vec![] };
                     for hay in fam.hays.iter().chain(derived.iter()) {
                         if rel != "def" {
                             check_hay_rel(&ctx, &built, hay, aspects, &rel);
